@@ -201,8 +201,9 @@ def plan_roundtrip(fmt, seed, tier):
     b.plan["faulty"] = faulty
     nseg = rng.choice([1, 2, 2, 3])
     big = tier == "thorough"
-    pool = gen.name_pool(rng, fmt, rng.randint(6, 14 if not big else 40))
     cfg = gen.default_cfg(rng, fmt, tier)
+    pool = gen.name_pool(rng, fmt, rng.randint(16, 40) if cfg["size"] == "l" else
+                         rng.randint(6, 14))
     if rng.random() < 0.3:
         cfg["nonascii_values"] = True
     lineages = []   # dict(ref, handle or None, path or None)
@@ -271,6 +272,15 @@ def plan_roundtrip(fmt, seed, tier):
                         b.op(**rop)
                         break
                     b.op(**rop)
+                    if rng.random() < 0.2:
+                        # the model just written is written once more, elsewhere, and read back:
+                        # serialising must not have changed what it denotes
+                        path2 = b.path(fmt)
+                        b.op(op="WRITE", fmt=fmt, m=lin["h"], path=path2, writer="fresh",
+                             pathstyle="abs")
+                        path_ref[path2] = lin["ref"]
+                        b.op(op="READ", fmt=fmt, path=path2, pathstyle="abs",
+                             **{"as": b.handle()})
                     lin["h"] = rop["as"]
             elif k < 0.7:
                 edit, new = gen.gen_edit(rng, lin["ref"], fmt, pool, lin["cfg"])
@@ -646,7 +656,41 @@ def plan_third_party(seed, tier):
             path = b.path(fmt)
             tags = ["peer." + kind] + ["surface." + c for c in info["choices"]]
             k = rng.random()
-            if k < 0.65:
+            if kind == "afm" and rng.random() < 0.12:
+                # relational / arithmetic attribute constraints are legal AFM that the metamodel
+                # reader does not support: it has to refuse the document, not drop them
+                nms = rm.names(ref)
+                a, c = rng.choice(nms), rng.choice(nms)
+                extra = rng.choice(["%s.cost > 3;" % a, "%s.cost + %s.cost < 10;" % (a, c),
+                                    "%s IMPLIES (%s.cost >= 2);" % (a, c),
+                                    "NOT (%s.size == 1);" % a,
+                                    "(%s.cost * 2 <= 8) AND %s;" % (a, c)])
+                bad = text.rstrip("\n") + "\n" + extra + "\n"
+                b.op(op="PUT", path=path, fmt=fmt, b64=_b64(bad), prop="C09",
+                     tags=tags + ["invalid.unsupported_constraint"],
+                     expect={"kind": "raise", "why": "unrepresentable"})
+                b.op(op="READ", fmt=fmt, path=path, pathstyle="abs")
+            elif kind == "fide" and rng.random() < 0.12:
+                # a construct the metamodel cannot hold (FeatureIDE's atmost1 / choose1 rules, or
+                # an element that is no rule at all): the reader has to refuse the document
+                nms = rm.names(ref)
+                tagname = rng.choice(["atmost1", "choose1", "atleast1", "alt", "xor", "unknown"])
+                inner = "".join("<var>%s</var>" % peers.escape(rng.choice(nms))
+                                for _ in range(rng.randint(1, 3)))
+                wrap = rng.choice(["@@", "<not>@@</not>", "<imp><var>" + peers.escape(nms[0]) +
+                                   "</var>@@</imp>"])
+                rule = "<rule>" + wrap.replace("@@", "<%s>%s</%s>" % (tagname, inner, tagname)) + \
+                    "</rule>"
+                if "</constraints>" in text:
+                    bad = text.replace("</constraints>", rule + "</constraints>", 1)
+                else:
+                    bad = text.replace("</struct>", "</struct><constraints>" + rule +
+                                       "</constraints>", 1)
+                b.op(op="PUT", path=path, fmt=fmt, b64=_b64(bad), prop="C09",
+                     tags=tags + ["invalid.unrepresentable_rule"],
+                     expect={"kind": "raise", "why": "unrepresentable"})
+                b.op(op="READ", fmt=fmt, path=path, pathstyle="abs")
+            elif k < 0.65:
                 b.op(op="PUT", path=path, fmt=fmt, b64=_b64(text), prop="C09", tags=tags,
                      expect={"kind": "model", "ref": rm.project(fmt, ref), "facets": facets})
                 rop = {"op": "READ", "fmt": fmt, "path": path,
